@@ -8,6 +8,7 @@ open Nibiru
 
 structure DriverState where
   epochs : Epochs.State := []
+  infl : Inflation.State := default
 
 def splitArgs (line : String) : List String :=
   (line.trimAscii.toString.splitOn " ").filter (· ≠ "")
@@ -18,6 +19,10 @@ def stepLine (st : DriverState) (line : String) : DriverState × String :=
   | "epochs" :: args =>
     let (s', out) := Epochs.step st.epochs args
     ({ st with epochs := s' }, out)
+  | "dec" :: args => (st, Dec.step args)
+  | "infl" :: args =>
+    let (s', out) := Inflation.step st.infl args
+    ({ st with infl := s' }, out)
   | _ => (st, "bad-op")
 
 partial def loop (h : IO.FS.Stream) (out : IO.FS.Stream) (st : DriverState) : IO Unit := do
